@@ -742,7 +742,22 @@ class PathEngine:
                 res = args[1]
         else:
             res = ("call", self._nid(node), label)
-        ev = self._ev(cfg, "call", node, targets=targets, recv=recv, args=args, kwargs=kwargs, result=res, pure=pure, label=label, awaited=bool(node.info.get("awaited")))
+        # keyword view: positional arguments of a repository callee are also recorded under the callee's parameter
+        # names, so that rules do not depend on how a private call happens to be spelled (positional / keyword / order)
+        bound = kwargs
+        if len(targets) == 1 and t0.kind in ("repo", "ctor") and not any(isinstance(a, tuple) and a and a[0] == "star" for a in args) and "**" not in kwargs:
+            names: list[str] | None = None
+            if t0.func is not None:
+                names = t0.func.positional_params()
+                if t0.kind == "ctor" or (t0.func.is_method and not t0.func.is_staticmethod and (t0.self_expr is not None or t0.func.is_classmethod)):
+                    names = names[1:]
+            elif t0.cls is not None:
+                names = self.prog.all_fields(t0.cls)
+            if names is not None and len(args) <= len(names):
+                bound = dict(kwargs)
+                for i, a in enumerate(args):
+                    bound.setdefault(names[i], a)
+        ev = self._ev(cfg, "call", node, targets=targets, recv=recv, args=args, kwargs=bound, result=res, pure=pure, label=label, awaited=bool(node.info.get("awaited")))
         if isinstance(f, ast.Name):
             try:
                 ev.callee = self.sym(f, env, store, cfg)
